@@ -15,6 +15,8 @@ RULE = ('corpus; exhaustive binary scope (close_holes: every binary image of eve
         'and cleared (both must agree), Bc entries other than 0/1, all-ones boxes with even sides (definition), irregular neighbourhoods '
         '(proved clamped specification); plateau images (plateaus on the border / in corners, tied plateaus, +-inf); close_holes with every '
         'Bc the wrapper accepts (None, 0-4 and 8, arrays of any shape / dtype / layout) and non-0/1 foreground values. '
+        'int64/uint64 extrema: 40-50 % of the palettes consist of values that differ only beyond double precision (2^53..2^53+2, '
+        '2^63-1.., 2^64-1.., -2^63.., -2^53-1..; tag magnitude=>=2^53). '
         'Size-threshold stream (tag size=threshold; quick 4, thorough 24 cases): plateaus / background regions / holes / rows whose '
         'pixel count crosses 2^8, 2^15, 2^16 (+-1), judged by the Lean model of the kernels (linear; proved equal to the definition for '
         'cross/box: C14_regional_eq_spec_cross_box_disk, C14_close_holes_eq_spec; the quadratic fixed-point specifications are left out there). '
@@ -262,7 +264,7 @@ def _eval_single(cases):
         res.append(dict(findings=f, nontrivial=bool(0 < sum(g) < len(g)), sig=line + case.get('layout', 'C'),
                         tags=dict(op=op, dtype=case['dtype'], ndim=len(case['shape']), layout=case.get('layout', 'C'),
                                   nbhd=('regular' if regular else 'irregular'), size=case.get('size', 'small'),
-                                  cls=case.get('cls', '-'))))
+                                  cls=case.get('cls', '-'), magnitude=(_magnitude(case) if op in LOC_OPS else '-'))))
     return res
 
 
@@ -394,8 +396,28 @@ def _palette(rng, dtype):
         vals = [float(dt.type(v)) for v in rng.sample(pool, k)]
         return vals
     lo, hi = gen.dt_range(dtype)
+    if hi >= 2 ** 53 and rng.random() < 0.4:
+        # values that differ only beyond double precision: a kernel comparing through `double` sees plateaus where there are
+        # strict extrema (2^53 .. 2^53+2, the top of the range, for int64 the bottom of the range and -2^53 - 1)
+        return _big_neighbours(rng, lo, hi, k)
     pool = sorted({lo, hi, lo + 1, hi - 1, 0 if lo <= 0 else lo, 1, 2, 3, 5, hi // 2, max(lo, -1), max(lo, -7)})
     return rng.sample(pool, min(k, len(pool)))
+
+
+def _big_neighbours(rng, lo, hi, k):
+    fams = [[2 ** 53, 2 ** 53 + 1, 2 ** 53 + 2, 2 ** 53 - 1], [hi, hi - 1, hi - 2, hi - 3]]
+    if hi > 2 ** 63:
+        fams.append([2 ** 63, 2 ** 63 - 1, 2 ** 63 + 1, 2 ** 63 + 2])
+    if lo < 0:
+        fams += [[lo, lo + 1, lo + 2, lo + 3], [-2 ** 53, -2 ** 53 - 1, -2 ** 53 - 2, -2 ** 53 + 1]]
+    fam = rng.choice(fams)
+    return rng.sample(fam, min(k, len(fam))) if k <= len(fam) else fam + rng.sample(rng.choice(fams), k - len(fam))
+
+
+def _magnitude(case):
+    if np.dtype(case['dtype']).kind not in 'iu':
+        return '-'
+    return '>=2^53' if any(abs(int(v)) >= 2 ** 53 for v in case['data']) else '<2^53'
 
 
 def _rand_extrema_case(rng):
@@ -459,7 +481,10 @@ def _rand_plateau_case(rng):
         levels = sorted(rng.sample([float('-inf'), -2.5, -0.0, 0.0, 1.0, float(np.finfo(dt).max), float('inf')], 4))
     else:
         lo, hi = gen.dt_range(dtype)
-        levels = sorted(rng.sample(sorted({lo, lo + 1, 0 if lo <= 0 else lo + 2, 5, 9, hi - 1, hi}), 4))
+        if hi >= 2 ** 53 and rng.random() < 0.5:
+            levels = sorted(_big_neighbours(rng, lo, hi, 4))
+        else:
+            levels = sorted(rng.sample(sorted({lo, lo + 1, 0 if lo <= 0 else lo + 2, 5, 9, hi - 1, hi}), 4))
     A = np.empty(shape, dtype=object)
     A[...] = rng.choice(levels[:2] if len(levels) > 2 else levels)
     for _ in range(rng.randint(1, 4)):
